@@ -446,7 +446,7 @@ func (g *gen) rpc(id int) *RPC {
 	if g.p(k.pDeviate) {
 		switch g.pick(8) {
 		case 7: // a worker the handler started uses the stream after the handler has returned
-			if r.Kind != KUnary && len(h) > 0 && h[len(h)-1].K == "return" {
+			if len(h) > 0 && h[len(h)-1].K == "return" {
 				n := 1 + g.pick(2)
 				var lateOps []Op
 				for i := 0; i < n; i++ {
@@ -539,6 +539,11 @@ func (g *gen) rpc(id int) *RPC {
 			} else {
 				b = append(b, o)
 			}
+		}
+		if len(a) > 0 && len(b) > 0 && !http && g.p(0.3) {
+			// the sender, too, may ask for the headers (before its first send, say)
+			pos := g.pick(len(a))
+			a = append(a[:pos], append([]Op{{K: "header"}}, a[pos:]...)...)
 		}
 		if len(a) > 0 && len(b) > 0 {
 			if g.p(k.pCloseRace) {
